@@ -139,7 +139,7 @@ func TestVfTwin(t *testing.T) {
 			var start string
 			var hs []vfHdr
 			var body []byte
-			srcIP, srcPort := pr.g.ip("10.0.5.5"), 40000
+			srcIP, srcPort := pr.g.ip("10.0.5.5"), 24000
 			if rc.Rc.Kind == "req" {
 				start, hs, body = pr.g.requestParts(&rc)
 			} else {
